@@ -8,7 +8,7 @@ for d in seeded/*/; do
   prop=$(python3 -c "import json;print(json.load(open('$d/meta.json'))['breaks_property'])")
   git -C $R checkout -q -- .
   if git -C $R apply /verif/$d/patch.diff 2>/dev/null; then
-    WCVERIF_DEV_REPO=$R timeout 3000 ./check $prop --tier quick > /tmp/sd_$id.log 2>&1; r="exit=$?"
+    WCVERIF_DEV_REPO=$R VERIF_SEED=${SEED:-0} timeout 3000 ./check $prop --tier quick > /tmp/sd_$id.log 2>&1; r="exit=$?"
   else r="patch-does-not-apply"; fi
   git -C $R checkout -q -- .
   echo "$id $prop $r" >> $out
